@@ -65,6 +65,10 @@ claimed = {
    text="Generated YAML text (documented forms and seeded defects over curve graphs, ids, backends, references and option spellings) goes through the real `fan2go config validate` in its own process; an independent validator over the YAML text decides well-formedness (accepted => well-formed; documented-forms-only => accepted); every accepted document is booted by the real daemon in the simulated world, every curve evaluated under several sensor states, and each fan must complete control cycles without panic, stack overflow or stall.",
    note="Trusted: the harness's own spec validator (yaml.v3) and document generator; hwmon entries always name existing devices (binding failures belong to C17). A decode failure ending in a panic trace counts as rejection.",
    tech="generated configurations through the real loader/validator + boot in the deterministic simulation (process per document)"),
+ "C15": dict(cat="exploration", ref="§3/C15",
+   text="Multi-incarnation histories of the real program over one world directory in which only the bbolt database survives: daemon starts ended by injected SIGTERM, the real `fan reset` and `fan init` commands, each its own OS process in virtual time; the journal of PWM writes before the first control cycle decides whether the sweep / the RPM-curve measurement was repeated, for hwmon/file/cmd fans with and without configured pwmMap and min+max; re-analysis after reset guards against vacuous passes. One known finding (README promise about configured min+max) is listed in known_findings.json.",
+   note="Trusted: classification of start-up writes by call stack (sweep vs measurement), thresholds 8 / 3 writes; process restarts model only loss of non-durable state (no torn database).",
+   tech="deterministic simulation across process restarts (durable state only), start-up write-journal oracle"),
 }
 checks = []
 for p in props:
